@@ -178,7 +178,10 @@ func trAlts(tr func(string) string, alts [][]string) [][]string {
 // keyTranslator maps keys built on the parameters of h to keys of the arguments of call c.
 func (p *Prog) keyTranslator(h *ssa.Function, c ssa.CallInstruction, outer func(string) string) func(string) string {
 	args := c.Common().Args
-	type rp struct{ name, key string }
+	type rp struct {
+		name, key string
+		alloc     *ssa.Alloc // the argument is a load of this local (a record built field by field)
+	}
 	var reps []rp
 	for i, pr := range h.Params {
 		if i < len(args) {
@@ -186,7 +189,11 @@ func (p *Prog) keyTranslator(h *ssa.Function, c ssa.CallInstruction, outer func(
 			if outer != nil {
 				k = outer(k)
 			}
-			reps = append(reps, rp{pr.Name(), k})
+			var al *ssa.Alloc
+			if u, ok := args[i].(*ssa.UnOp); ok && u.Op == token.MUL {
+				al, _ = u.X.(*ssa.Alloc)
+			}
+			reps = append(reps, rp{pr.Name(), k, al})
 		}
 	}
 	isIdent := func(b byte) bool {
@@ -206,6 +213,41 @@ func (p *Prog) keyTranslator(h *ssa.Function, c ssa.CallInstruction, outer func(
 				if end < len(k) && isIdent(k[end]) {
 					from = end
 					continue
+				}
+				// a field path of a record the caller filled field by field: the value stored in
+				// that field before the call
+				if r.alloc != nil && end < len(k) && k[end] == '.' {
+					j := end
+					var path []string
+					for j < len(k) && k[j] == '.' {
+						e := j + 1
+						for e < len(k) && isIdent(k[e]) {
+							e++
+						}
+						if e == j+1 {
+							break
+						}
+						path = append(path, k[j+1:e])
+						j = e
+					}
+					done := false
+					for n := len(path); n > 0 && !done; n-- {
+						if fk := p.pathKeyAt(r.alloc, path[:n], c); fk != "" && !strings.HasPrefix(fk, "load:") {
+							if outer != nil {
+								fk = outer(fk)
+							}
+							cut := end
+							for _, seg := range path[:n] {
+								cut += 1 + len(seg)
+							}
+							k = k[:i] + fk + k[cut:]
+							from = i + len(fk)
+							done = true
+						}
+					}
+					if done {
+						continue
+					}
 				}
 				k = k[:i] + r.key + k[end:]
 				from = i + len(r.key)
